@@ -6,6 +6,9 @@
 #define VERIF_GPUEMU_OPENCL_C_H
 
 #include "../gpuemu.hpp"
+#ifdef GPUEMU_WORKGROUP
+#include "workgroup.hpp"
+#endif
 
 typedef unsigned int uint;
 
@@ -26,7 +29,38 @@ inline void barrier(int) { gpuemu::barrier(); }
 #define __private
 #define __constant const
 #define restrict __restrict__
-// __local is deliberately NOT defined (per-group storage belongs to the fiber-executor extension)
+// __local is only defined with -DGPUEMU_WORKGROUP (fiber executor, see workgroup.hpp)
+#ifdef GPUEMU_WORKGROUP
+// a __local variable declared in a kernel: one instance for the group that is running
+#define __local static
+// OpenCL C 1.1 atomic functions on 32-bit integers in global/local memory (6.11.11)
+#define GPUEMU_CL_ATOMIC2(T, name, expr) \
+  inline T name(volatile T *p, T val) { const T old = *p; *p = (T) (expr); return old; }
+#define GPUEMU_CL_ATOMIC1(T, name, expr) \
+  inline T name(volatile T *p) { const T old = *p; *p = (T) (expr); return old; }
+GPUEMU_CL_ATOMIC2(int, atomic_add, (unsigned int) old + (unsigned int) val)
+GPUEMU_CL_ATOMIC2(unsigned int, atomic_add, old + val)
+GPUEMU_CL_ATOMIC2(int, atomic_sub, (unsigned int) old - (unsigned int) val)
+GPUEMU_CL_ATOMIC2(unsigned int, atomic_sub, old - val)
+GPUEMU_CL_ATOMIC2(int, atomic_xchg, val)
+GPUEMU_CL_ATOMIC2(unsigned int, atomic_xchg, val)
+GPUEMU_CL_ATOMIC1(int, atomic_inc, (unsigned int) old + 1u)
+GPUEMU_CL_ATOMIC1(unsigned int, atomic_inc, old + 1u)
+GPUEMU_CL_ATOMIC1(int, atomic_dec, (unsigned int) old - 1u)
+GPUEMU_CL_ATOMIC1(unsigned int, atomic_dec, old - 1u)
+GPUEMU_CL_ATOMIC2(int, atomic_min, (val < old ? val : old))
+GPUEMU_CL_ATOMIC2(unsigned int, atomic_min, (val < old ? val : old))
+GPUEMU_CL_ATOMIC2(int, atomic_max, (val > old ? val : old))
+GPUEMU_CL_ATOMIC2(unsigned int, atomic_max, (val > old ? val : old))
+GPUEMU_CL_ATOMIC2(int, atomic_and, old & val)
+GPUEMU_CL_ATOMIC2(unsigned int, atomic_and, old & val)
+GPUEMU_CL_ATOMIC2(int, atomic_or, old | val)
+GPUEMU_CL_ATOMIC2(unsigned int, atomic_or, old | val)
+GPUEMU_CL_ATOMIC2(int, atomic_xor, old ^ val)
+GPUEMU_CL_ATOMIC2(unsigned int, atomic_xor, old ^ val)
+#undef GPUEMU_CL_ATOMIC1
+#undef GPUEMU_CL_ATOMIC2
+#endif
 
 #define GPUEMU_GRID_ENTRY(entryName, callExpr)                                        \
   extern "C" void entryName(void **args, const size_t outer[3], const size_t inner[3]) { \
